@@ -101,6 +101,7 @@ type step struct {
 	Tree int    `json:"tree"`
 	Run  int    `json:"run,omitempty"`
 	Long bool   `json:"long,omitempty"`
+	Mid  int    `json:"mid,omitempty"` // run: while the creating thread is held at overlay.treeSet, the run Mid of the same tree declares itself done
 }
 
 type input struct {
@@ -363,6 +364,19 @@ func (w *world) setTimer(i int, long bool) {
 	}
 }
 
+// do executes one scenario step; when the step cannot be carried out (the implementation did not
+// get where the scenario expects it) everything the step recorded is dropped and the scenario
+// ends there: the actions and snapshots of the steps completed before are still a valid history
+func (w *world) do(s step) bool {
+	na, ns, nq, nt := len(w.acts), len(w.snaps), len(w.answers), len(w.stale)
+	w.exec(s)
+	if w.failed != "" {
+		w.acts, w.snaps, w.answers, w.stale = w.acts[:na], w.snaps[:ns], w.answers[:nq], w.stale[:nt]
+		return false
+	}
+	return true
+}
+
 func (w *world) exec(s step) {
 	k := tokKey{s.Tree, s.Run}
 	tr := w.trees[s.Tree]
@@ -378,18 +392,58 @@ func (w *world) exec(s step) {
 		w.snaps[len(w.snaps)-1] = w.snapshot()
 	case "run":
 		fd := w.sched.Block("overlay.flushDone", 1, w.matchTree(s.Tree))
+		var ts *lib.Gate
+		if s.Mid != 0 {
+			ts = w.sched.Block("overlay.treeSet", 1, w.matchTree(s.Tree))
+		}
 		w.setTimer(s.Tree, s.Long)
 		before := w.ovX.VerifRemovalPending(tr.ID)
-		pi, err := w.ovX.CreateProtocol(protoName, tr, onet.NilServiceID)
-		if err != nil {
-			w.failed = "create: " + err.Error()
+		type res struct {
+			pi  onet.ProtocolInstance
+			err error
+		}
+		resc := make(chan res, 1)
+		go func() {
+			pi, err := w.ovX.CreateProtocol(protoName, tr, onet.NilServiceID)
+			resc <- res{pi, err}
+		}()
+		if ts != nil {
+			// the creating thread has entered the instance in the table and stored the tree
+			// (in that order, each in its own critical section) and is held before the flush
+			if !ts.WaitHit(wait) {
+				w.failed = "create did not reach treeSet"
+				ts.Release()
+				fd.Release()
+				return
+			}
+			w.emit("LocalCreate "+ktext(k), false)
+			w.emit("LocalSet "+ktext(k), false)
+			w.noteRemoval(s.Tree, before, s.Long)
+			if w.failed == "" {
+				w.exec(step{Op: "done", Tree: s.Tree, Run: s.Mid, Long: s.Long})
+			}
+			before = w.ovX.VerifRemovalPending(tr.ID)
+			ts.Release()
+		}
+		var r res
+		select {
+		case r = <-resc:
+		case <-time.After(wait):
+			w.failed = "create did not return"
 			fd.Release()
 			return
 		}
-		w.tokens[k] = pi.Token()
+		if r.err != nil {
+			w.failed = "create: " + r.err.Error()
+			fd.Release()
+			return
+		}
+		w.tokens[k] = r.pi.Token()
 		w.order = append(w.order, k)
-		w.emit("LocalCreate "+ktext(k), false)
-		w.emit("LocalSet "+ktext(k), false)
+		if ts == nil {
+			w.emit("LocalCreate "+ktext(k), false)
+			w.emit("LocalSet "+ktext(k), false)
+		}
 		w.flushed(s.Tree, fd)
 		w.noteRemoval(s.Tree, before, s.Long)
 		w.snaps[len(w.snaps)-1] = w.snapshot()
@@ -590,6 +644,93 @@ func (w *world) exec(s step) {
 		}
 		td.Release()
 		w.emit(fmt.Sprintf("TimerDelete %d", h.ch), true)
+	case "trydelete":
+		// like tdelete, but a scenario step that is only applicable when a fired timer is held
+		for _, h := range w.held {
+			if h.tree == s.Tree {
+				w.exec(step{Op: "tdelete", Tree: s.Tree})
+				break
+			}
+		}
+	case "stalefirst":
+		// two first messages for one new token on a stored tree. T2 is held right after it has read
+		// the instance tables (overlay.instanceLooked; in the code as it is it holds transmitMux
+		// there), then T1 is let go: if T1 can complete (it cannot while T2 holds the mutex) the
+		// instance it created declares itself done before T2 continues.
+		tok := w.token(k)
+		child := tr.Root.Children[0]
+		send := func() (*flight, *lib.Gate) {
+			f := &flight{done: make(chan struct{})}
+			gh := w.sched.Block("overlay.treeHit", 1, w.matchTok(tok))
+			buf, _ := network.Marshal(&Ping{N: 1})
+			env := &network.Envelope{ServerIdentity: child.ServerIdentity, MsgType: onet.ProtocolMsgID,
+				Msg: &onet.ProtocolMsg{From: tok.ChangeTreeNodeID(child.ID), To: tok, MsgSlice: buf,
+					MsgType: network.MessageType(&Ping{})}}
+			go func() {
+				w.ovX.Process(env)
+				close(f.done)
+			}()
+			if !gh.WaitHit(wait) {
+				w.failed = "stalefirst: no hit"
+			}
+			return f, gh
+		}
+		f2, g2 := send()
+		if w.failed != "" {
+			g2.Release()
+			return
+		}
+		w.emit("MsgLookup "+ktext(k), true)
+		gl := w.sched.Block("overlay.instanceLooked", 1, w.matchTok(tok))
+		g2.Release()
+		if !gl.WaitHit(wait) {
+			w.failed = "stalefirst: tables not read"
+			gl.Release()
+			return
+		}
+		f1, g1 := send()
+		if w.failed != "" {
+			g1.Release()
+			gl.Release()
+			return
+		}
+		w.emit("MsgLookup "+ktext(k), true)
+		w.setTimer(s.Tree, s.Long)
+		g1.Release()
+		t1first := false
+		select {
+		case <-f1.done:
+			t1first = true
+		case <-time.After(300 * time.Millisecond):
+		}
+		if t1first {
+			w.settle()
+			w.emit("MsgDeliver "+ktext(k), true)
+			cnt.Lock()
+			p := cnt.insts[tok.RoundID]
+			cnt.Unlock()
+			if p != nil {
+				w.exec(step{Op: "done", Tree: s.Tree, Run: s.Run, Long: s.Long})
+			}
+		}
+		before := w.ovX.VerifRemovalPending(tr.ID)
+		gl.Release()
+		for _, f := range []*flight{f2, f1} {
+			select {
+			case <-f.done:
+			case <-time.After(wait):
+				w.failed = "stalefirst: message thread did not return"
+				return
+			}
+		}
+		w.settle()
+		if !t1first {
+			// T2 created the instance and delivered, then T1 delivered: observed together
+			w.emit("MsgDeliver "+ktext(k), false)
+		}
+		w.emit("MsgDeliver "+ktext(k), false)
+		w.noteRemoval(s.Tree, before, s.Long)
+		w.snaps[len(w.snaps)-1] = w.snapshot()
 	case "req":
 		w.ovP.VerifExpectTree(tr.ID)
 		env := &network.Envelope{
@@ -662,8 +803,7 @@ func run(raw json.RawMessage) lib.Case {
 		if os.Getenv("VERIF_DEBUG") != "" {
 			fmt.Fprintln(os.Stderr, "  step", s, time.Now().Format("05.000"))
 		}
-		w.exec(s)
-		if w.failed != "" {
+		if !w.do(s) {
 			break
 		}
 	}
@@ -675,7 +815,7 @@ func run(raw json.RawMessage) lib.Case {
 	if w.failed == "" && in.Drain {
 		// run every held timer to completion
 		for len(w.held) > 0 && w.failed == "" {
-			w.exec(step{Op: "tdelete", Tree: w.held[0].tree})
+			w.do(step{Op: "tdelete", Tree: w.held[0].tree})
 		}
 		drained = w.failed == ""
 		// a removal whose (long) timer has not fired is still pending: not drained
@@ -685,11 +825,15 @@ func run(raw json.RawMessage) lib.Case {
 			}
 		}
 	}
-	if w.failed != "" {
+	cut := w.failed != ""
+	if cut {
 		if os.Getenv("VERIF_DEBUG") != "" {
-			fmt.Fprintln(os.Stderr, "discard:", w.failed, executed)
+			fmt.Fprintln(os.Stderr, "cut:", w.failed, executed)
 		}
-		return lib.Case{Discard: true, Class: in.Name, Obs: w.failed}
+		if len(w.acts) == 0 {
+			return lib.Case{Discard: true, Class: in.Name, Obs: w.failed}
+		}
+		drained = false
 	}
 	coq := fmt.Sprintf("mkCase %s %s %s %s %s", lib.List(w.acts), lib.List(w.snaps), lib.List(w.answers), lib.Bool(drained), lib.NatList(w.stale))
 	obs := map[string]interface{}{"actions": strings.Join(w.acts, "; "), "answers": strings.Join(w.answers, " "),
@@ -697,6 +841,10 @@ func run(raw json.RawMessage) lib.Case {
 	class := in.Name
 	if w.f27 {
 		class += "+f27window"
+	}
+	if cut {
+		class += "+cut"
+		obs["cut"] = w.failed
 	}
 	return lib.Case{Coq: coq, Class: class, Input: input{Name: in.Name, Steps: executed, Drain: in.Drain}, Obs: obs,
 		Nontrivial: len(w.acts) > 3, Key: strings.Join(w.acts, ";")}
@@ -709,7 +857,7 @@ func (w *world) randomWalk(n int, seed int64) []step {
 	var done []step
 	nextRun := map[int]int{0: 10, 1: 10}
 	do := func(s step) {
-		w.exec(s)
+		w.do(s)
 		done = append(done, s)
 	}
 	activeTokens := func() []tokKey {
@@ -854,6 +1002,10 @@ func templates(t int) []input {
 			st("misscheck", t), st("missreg", t), st("arrive", t), st("req", t)}},
 		{Name: "stale-timer", Drain: true, Steps: []step{st("run", t, 1), st("done", t, 1), st("run", t, 2), st("done", t, 2),
 			st("tdelete", t), st("req", t), st("tdelete", t), st("req", t)}},
+		{Name: "done-during-create", Drain: true, Steps: []step{st("run", t, 1), {Op: "run", Tree: t, Run: 2, Mid: 1}, st("req", t),
+			st("trydelete", t), st("req", t), st("lookup", t, 2), st("deliver", t, 2), st("done", t, 2), st("tdelete", t), st("req", t)}},
+		{Name: "two-first-messages", Drain: true, Steps: []step{st("tree", t), st("stalefirst", t, 1), st("req", t),
+			st("trydelete", t), st("req", t)}},
 		{Name: "unsolicited-tree", Drain: true, Steps: []step{st("arrive", t), st("req", t), st("lookup", t, 1), st("misscheck", t),
 			st("missreg", t), st("lookup", t, 2), st("misscheck", t), st("arrive", t), st("done", t, 1), st("done", t, 2)}},
 	}
